@@ -29,6 +29,8 @@ def collect():
     consts.append(('onionDiv', 'Nat', str(_caps['onionDiv']), 'on_peers_subscribe: onion divisor (observed)'))
     consts += daemon_consts()
     consts += _txcodec_consts()
+    from harness import gen_rpc
+    consts += gen_rpc.collect()
     return consts
 
 
